@@ -43,6 +43,26 @@ def run(ctx, mode):
         nvec = len(vs)
         env = {"VERIF_RANDOM": 3000 if ctx.quick() else 40000, "VERIF_MUTATED": 3000 if ctx.quick() else 40000,
                "VERIF_BIG": 3 if ctx.quick() else 24}
+    if rin is None and not ctx.quick():
+        # coverage-guided fuzzing as an input generator (the target never fails; its cache stays in the scratch dir)
+        import subprocess
+        cache = ctx.path("fuzzcache")
+        hb = ctx.harness("stun", fuzz="FuzzVerifDecode")
+        try:
+            subprocess.run([hb, "-test.run", "^$", "-test.fuzz", "^FuzzVerifDecode$", "-test.fuzztime", "45s",
+                            "-test.fuzzcachedir", cache, "-test.parallel", "8"], cwd=ctx.repo, timeout=240,
+                           stdout=subprocess.PIPE, stderr=subprocess.STDOUT)
+            dump = ctx.path("fuzz_vectors.ndjson")
+            ctx.drive(hb, "TestVerifCorpusDump", env={"VERIF_TRACE_OUT": dump, "VERIF_FUZZ_CACHE": cache}, timeout=120)
+            nfz = 0
+            with open(vec, "a") as out, open(dump) as fh:
+                for ln in fh:
+                    out.write(ln)
+                    nfz += 1
+            ctx.extra["fuzz_corpus_inputs"] = nfz
+            vlib.log("GEN %d inputs from the coverage-guided corpus" % nfz)
+        except Exception as e:  # the fuzzer is an optional input source
+            vlib.log("fuzz corpus unavailable: %s" % e)
     vlib.log("GEN %d length structures" % nvec)
     tagsets = [("verif",)] if ctx.quick() or rin is not None else [("verif",), ("verif", "debug")]
     total_lines = 0
